@@ -25,27 +25,28 @@ import (
 
 // Cfg configures a session under test.
 type Cfg struct {
-	Role           string   `json:"role"` // "acceptor" or "initiator"
-	HBMin          int      `json:"hb_min,omitempty"`
-	HBMax          int      `json:"hb_max,omitempty"`
-	HBInt          int      `json:"hb_int,omitempty"` // initiator: configured interval
-	Methods        []string `json:"methods"`          // acceptor: allowed; initiator: Methods[0] is its own
-	Approve        string   `json:"approve"`          // "all", "none", or "user:<name>:<password>"
-	CloseTimeoutMs int64    `json:"close_timeout_ms"`
-	Buf            int      `json:"buf"`
-	FailSaves      []int    `json:"fail_saves,omitempty"`
-	FailNexts      []int    `json:"fail_nexts,omitempty"`       // 1-based indices of the counter store's outgoing GetNextSeqNum calls that fail
-	Location       string   `json:"location,omitempty"`         // session option Location (time zone of SendingTime); "" = the default (UTC)
-	PartitionStore bool     `json:"partition_store,omitempty"`  // the stores key everything by the StorageID they are given: messages per (Sender, Target), counters per (Sender, Target, Side)
-	Tolerant       bool     `json:"tolerant,omitempty"`         // the application configures its own unmarshaller (SetUnmarshaller): one that does not insist on the CheckSum value
-	LogonFailsOnce bool     `json:"logon_fails_once,omitempty"` // with CustomLogon: the application's logon request returns an error the first time; Session.Run is then called again
-	CustomLogon    bool     `json:"custom_logon,omitempty"`     // initiator (direct rig): the application sets its own logon request with SetLogonRequest
-	CallbackHB     int      `json:"callback_hb,omitempty"`      // acceptor (direct rig): the application's logon callback sets the heartbeat interval to this many seconds (0: leaves it)
-	LogonCbNs      int64    `json:"logon_cb_ns,omitempty"`      // acceptor (full rig): virtual time the application's logon callback takes
-	User           string   `json:"user,omitempty"`
-	Pass           string   `json:"pass,omitempty"`
-	Sender         string   `json:"sender,omitempty"` // initiator's identifiers
-	Target         string   `json:"target,omitempty"`
+	Role                 string   `json:"role"` // "acceptor" or "initiator"
+	HBMin                int      `json:"hb_min,omitempty"`
+	HBMax                int      `json:"hb_max,omitempty"`
+	HBInt                int      `json:"hb_int,omitempty"` // initiator: configured interval
+	Methods              []string `json:"methods"`          // acceptor: allowed; initiator: Methods[0] is its own
+	Approve              string   `json:"approve"`          // "all", "none", or "user:<name>:<password>"
+	CloseTimeoutMs       int64    `json:"close_timeout_ms"`
+	Buf                  int      `json:"buf"`
+	FailSaves            []int    `json:"fail_saves,omitempty"`
+	FailNexts            []int    `json:"fail_nexts,omitempty"`             // 1-based indices of the counter store's outgoing GetNextSeqNum calls that fail
+	Location             string   `json:"location,omitempty"`               // session option Location (time zone of SendingTime); "" = the default (UTC)
+	PartitionStore       bool     `json:"partition_store,omitempty"`        // the stores key everything by the StorageID they are given: messages per (Sender, Target), counters per (Sender, Target, Side)
+	Tolerant             bool     `json:"tolerant,omitempty"`               // the application configures its own unmarshaller (SetUnmarshaller): one that does not insist on the CheckSum value
+	ObserverReturnsFalse bool     `json:"observer_returns_false,omitempty"` // the application's state-change callbacks (registered after Session.Run) return false
+	LogonFailsOnce       bool     `json:"logon_fails_once,omitempty"`       // with CustomLogon: the application's logon request returns an error the first time; Session.Run is then called again
+	CustomLogon          bool     `json:"custom_logon,omitempty"`           // initiator (direct rig): the application sets its own logon request with SetLogonRequest
+	CallbackHB           int      `json:"callback_hb,omitempty"`            // acceptor (direct rig): the application's logon callback sets the heartbeat interval to this many seconds (0: leaves it)
+	LogonCbNs            int64    `json:"logon_cb_ns,omitempty"`            // acceptor (full rig): virtual time the application's logon callback takes
+	User                 string   `json:"user,omitempty"`
+	Pass                 string   `json:"pass,omitempty"`
+	Sender               string   `json:"sender,omitempty"` // initiator's identifiers
+	Target               string   `json:"target,omitempty"`
 }
 
 // Step is one action of a script.
@@ -429,7 +430,9 @@ func runDirect(cfg Cfg, steps []Step, hooks *Hooks, maxHB int, tr *Trace) {
 		r.s.OnChangeState(ev.e, func() bool {
 			_ = r.s.IsLogged() // what an application callback typically does first: look at the session
 			r.event("session:" + name)
-			return true
+			// an observer that returns false ends the notification of the callbacks registered after it; the
+			// session's own callbacks were registered before (in Run) and are not affected
+			return !cfg.ObserverReturnsFalse
 		})
 	}
 	// record the instant the session context is cancelled
